@@ -430,7 +430,7 @@ def sched_scenarios(ctx, rng, sched_mod, instr_modules):
 
     nsched = ctx.pick({"quick": 260, "thorough": 9000})
     for it in range(nsched):
-        if not ctx.budget_ok():
+        if it >= 10 and not ctx.budget_ok():
             break
         scen = ["exec_once", "exec_once_unless_exception", "sync_first_run", "once_listener", "first_connect"][it % 5]
         nthreads = rng.randint(2, 4)
@@ -566,7 +566,7 @@ def run(ctx):
             idx += 1
             if not ctx.mine(idx):
                 continue
-            if n == L and not ctx.budget_ok():
+            if n == L and not ctx.budget_ok(0.35):
                 break
             ops = setup + [REDUCED[i] for i in combo] + [("dispatch", 0, "ev_one"), ("dispatch_cls", 1, "ev_one"), ("dispatch", 1, "ev_one")]
             run_history(ctx, event, exc, ops, "exhaustive")
@@ -574,12 +574,12 @@ def run(ctx):
                 ctx.sample({"history": ops})
     ctx.count("exhaustive_histories_done")
     for k in range(ctx.pick({"quick": 500, "thorough": 20000})):
-        if not ctx.budget_ok():
+        if k >= 20 and not ctx.budget_ok(0.5):
             break
         ops = [("instance", "A"), ("instance", "C")] + gen_ops_random(rng, rng.randint(5, 30))
         run_history(ctx, event, exc, ops, "random")
     for k in range(ctx.pick({"quick": 40, "thorough": 1500})):
-        if not ctx.budget_ok():
+        if k >= 3 and not ctx.budget_ok(0.6):
             break
         retval_history(ctx, rng)
     # ---- Part S
